@@ -2,12 +2,14 @@
    (Model/SvdDecomp.v); the SVD oracle `svd` is universally quantified, what is assumed about its
    answers is the explicit per-run contract (step_ok / loop_ok / tt_ok ...). *)
 From Coq Require Import List Arith ZArith Ring Lia Reals.
-From TLV Require Import Base.Shape Base.PyList Base.Tensor Base.Ops Model.SvdDecomp Proofs.SvdDecompProofs
+From TLV Require Import Base.Shape Base.PyList Base.Tensor Base.Ops Model.Base Model.SvdDecomp Proofs.SvdDecompProofs
      Proofs.SvdDecompProofsR Proofs.SvdDecompTucker Proofs.SvdDecompTuckerFull Proofs.SvdDecompTuckerR
      Proofs.SvdDecompRing Proofs.SvdDecompRingR Proofs.SvdDecompPyth Proofs.SvdDecompError
      Proofs.SvdDecompTails Proofs.SvdDecompErrorR Proofs.SvdDecompTTM
      Proofs.SvdDecompHooi Proofs.SvdDecompHooiR Proofs.SvdDecompRanks
-     Proofs.SvdDecompTuckerErr Proofs.SvdDecompTuckerBound Proofs.SvdDecompHosvdBound.
+     Proofs.SvdDecompTuckerErr Proofs.SvdDecompTuckerBound Proofs.SvdDecompHosvdBound
+     Proofs.SvdDecompPartial Proofs.SvdDecompTuckerGen Proofs.SvdDecompRingErr Proofs.SvdDecompTTMErr
+     Proofs.SvdDecompValidate.
 Import ListNotations.
 
 (* exactness of one TT-SVD step, over every commutative ring: truncating + sign-flipping a
@@ -444,3 +446,121 @@ Theorem C09_hosvd_error_bounds_R : forall (svd : nat -> tensor R -> svdans) (X :
                         (t <= terr2 Rops X Xh)%R).
 Proof. exact hosvd_error_bounds_R. Qed.
 Print Assumptions C09_hosvd_error_bounds_R.
+
+(* ---------------------------------------------------------------- round 3 *)
+(* tensor ring error identity (ring; every order, start mode, rank request; no assumption on discarded singular values) *)
+Theorem C09_tensor_ring_error_identity : forall (F : Type) (Op : fops F),
+  ring_theory (f0 Op) (f1 Op) (fadd Op) (fmul Op) (fsub Op) (fopp Op) (@eq F) ->
+  forall (svd : nat -> tensor F -> svdans) (X : tensor F) (rank : rank_spec) (mode : nat) (cores : list (tensor F)),
+  tr_orth Op svd X rank mode -> tensor_ring Op svd X rank mode = Ok cores ->
+  tr_err2 Op X cores = tr_discard Op svd X rank mode.
+Proof. exact @tensor_ring_error_identity. Qed.
+Print Assumptions C09_tensor_ring_error_identity.
+
+(* tensor_train_matrix error identity (ring; any number of mode pairs) *)
+Theorem C09_tensor_train_matrix_error_identity : forall (F : Type) (Op : fops F),
+  ring_theory (f0 Op) (f1 Op) (fadd Op) (fmul Op) (fsub Op) (fopp Op) (@eq F) ->
+  forall (svd : nat -> tensor F -> svdans) (X : tensor F) (rank : rank_spec) (cores : list (tensor F)),
+  ttm_orth Op svd X rank -> tensor_train_matrix Op svd X rank = Ok cores ->
+  ttm_err2 Op X cores = ttm_discard Op svd X rank.
+Proof. exact @tensor_train_matrix_error_identity. Qed.
+Print Assumptions C09_tensor_train_matrix_error_identity.
+
+(* Tucker exactness over R with the U-side contract that also covers full_matrices answers (rank requests beyond
+   the number of singular triplets / beyond the mode sizes), any number of HOOI sweeps *)
+Theorem C09_svd_contract_contract_u : forall (M : tensor R) (m n r : nat) (a : svdans),
+  svd_contract M m n r a -> svd_contract_u M m n r a.
+Proof. exact svd_contract_contract_u. Qed.
+Print Assumptions C09_svd_contract_contract_u.
+
+Theorem C09_full_matrices_contract_u : forall (M : tensor R) (m n r : nat) (U : tensor R) (Sv : list R) (V : tensor R),
+  m <= r -> shape U = [m; m] ->
+  (forall j l, j < m -> l < m ->
+     fsumn Rops m (fun i => (g Rops U [i; j] * g Rops U [i; l])%R) = if Nat.eqb j l then 1%R else 0%R) ->
+  (exists w, forall i c, i < m -> c < n -> fsumn Rops m (fun l => (g Rops U [i; l] * w l c)%R) = g Rops M [i; c]) ->
+  svd_contract_u M m n r (U, Sv, V).
+Proof. exact full_matrices_contract_u. Qed.
+Print Assumptions C09_full_matrices_contract_u.
+
+Theorem C09_tucker_exact_gen_R : forall (svd : nat -> tensor R -> svdans) (X : tensor R) (rank : rank_spec) (n_iter : nat)
+    (core : tensor R) (fs : list (tensor R)),
+  wf X -> 0 < prod (shape X) ->
+  hosvd_contract_u svd X (validate_tucker_rank (ndim X) rank) 0 0 ->
+  match hosvd_factors Rops svd X (validate_tucker_rank (ndim X) rank) 0 0 with
+  | Ok fs0 => hooi_iter_contract_u svd X (validate_tucker_rank (ndim X) rank) n_iter (ndim X) fs0
+  | Err => True
+  end ->
+  tucker Rops svd X rank n_iter = Ok (core, fs) ->
+  tucker_to_tensor Rops core fs = Ok X.
+Proof. exact tucker_exact_gen_R. Qed.
+Print Assumptions C09_tucker_exact_gen_R.
+
+(* PARTIAL (Eckart-Young as the named hypothesis eckart_young_stmt): the squared error of whatever tucker() returns is
+   at least the discarded tail of EVERY mode unfolding of X (at the number of columns of the returned factor) *)
+Theorem C09_tucker_error_lower_partial : forall (svd : nat -> tensor R -> svdans),
+  eckart_young_stmt ->
+  forall (X : tensor R) (rank : rank_spec) (n_iter : nat) (core : tensor R) (fs : list (tensor R)) (Xh : tensor R)
+         (k : nat) (Xk : tensor R) (r : nat) (a : svdans),
+  wf X -> 0 < prod (shape X) -> k < ndim X ->
+  tucker Rops svd X rank n_iter = Ok (core, fs) -> tucker_to_tensor Rops core fs = Ok Xh ->
+  k < length fs -> shape (nth k fs (mk [] [])) = [nth k (shape X) 0; r] -> shape Xh = shape X ->
+  unfold 0%R X k = Ok Xk ->
+  svd_full_contract Xk (nth k (shape X) 0) (prod (remove_nth k (shape X))) r a ->
+  (tail2 Rops r (snd3 a) <= terr2 Rops X Xh)%R.
+Proof. exact tucker_error_lower_partial. Qed.
+Print Assumptions C09_tucker_error_lower_partial.
+
+(* PARTIAL (Eckart-Young): the squared TT-SVD error is at least the discarded tail of EVERY sequential unfolding of X
+   (at the bond dimension actually returned); no contract on the run's own oracle is needed *)
+Theorem C09_tt_error_lower_partial : forall (svd : nat -> tensor R -> svdans),
+  eckart_young_stmt ->
+  forall (X : tensor R) (rank : rank_spec) (cores : list (tensor R)) (k : nat) (aX : svdans),
+  tensor_train Rops svd X rank = Ok cores -> 0 < k -> k < ndim X ->
+  svd_full_contract (x_unfolding X k) (prod (firstn k (shape X))) (prod (skipn k (shape X)))
+                    (nth 2 (shape (nth (k - 1) cores (mk [] []))) 0) aX ->
+  (tail2 Rops (nth 2 (shape (nth (k - 1) cores (mk [] []))) 0%nat) (snd3 aX) <= tt_err2 Rops X cores)%R.
+Proof. exact tt_error_lower_partial. Qed.
+Print Assumptions C09_tt_error_lower_partial.
+
+(* PARTIAL (named hypothesis working_tails_le_x_tails: step by step the discarded tail of the working unfolding is at most
+   the discarded tail of the sequential unfolding of X, svdX being any SVD of those unfoldings): the literal upper bound
+   of the property, squared *)
+Theorem C09_tt_error_root_sum_square_partial : forall (svd svdX : nat -> tensor R -> svdans) (X : tensor R)
+    (rank : rank_spec) (cores : list (tensor R)),
+  tt_full_R svd X rank -> tensor_train Rops svd X rank = Ok cores ->
+  working_tails_le_x_tails svd svdX X rank ->
+  (tt_err2 Rops X cores <= Rsum (x_tail_list svd svdX X rank))%R.
+Proof. exact tt_error_root_sum_square_partial. Qed.
+Print Assumptions C09_tt_error_root_sum_square_partial.
+
+(* validate_tt_rank(allow_overparametrization=False), documented to return the rank realisable by TT-SVD.
+   FULL: whatever the oracle answers, tensor_train returns exactly the closed-form ranks realised_tt_rank
+   (left factor = bond obtained at the previous step) *)
+Theorem C09_tensor_train_realised_rank : forall (F : Type) (Op : fops F) (svd : nat -> tensor F -> svdans)
+    (X : tensor F) (rank : rank_spec) (cores : list (tensor F)),
+  tensor_train Op svd X rank = Ok cores ->
+  match validate_tt_rank (ndim X) rank with
+  | Ok rk => 1 :: right_bonds cores ++ [1] = realised_tt_rank (shape X) rk
+  | Err => False
+  end.
+Proof. exact @tensor_train_realised_rank. Qed.
+Print Assumptions C09_tensor_train_realised_rank.
+
+(* REFUTATION: the strict rule of the code (left factor = REQUESTED rank[i]) is not that rank:
+   shape (2,2,7), request (1,3,7,1): code (1,2,6,1), TT-SVD (1,2,4,1) *)
+Theorem C09_validate_tt_rank_strict_refuted :
+  exists shape rank, length rank = length shape + 1 /\ hd 0 rank = 1 /\ last rank 0 = 1 /\
+    validate_tt_rank_strict_code shape rank <> realised_tt_rank shape rank.
+Proof. exact validate_tt_rank_strict_refuted. Qed.
+Print Assumptions C09_validate_tt_rank_strict_refuted.
+
+(* what does hold for the code as it is: a request it returns unchanged is realised exactly *)
+Theorem C09_validate_tt_rank_strict_partial : forall shape rank,
+  length rank = length shape + 1 -> hd 0 rank = 1 -> last rank 0 = 1 -> shape <> [] ->
+  validate_tt_rank_strict_code shape rank = rank -> realised_tt_rank shape rank = rank.
+Proof. exact validate_tt_rank_strict_partial. Qed.
+Print Assumptions C09_validate_tt_rank_strict_partial.
+
+Example C09_nonvacuous_strict_partial :
+  validate_tt_rank_strict_code [2; 3; 4] [1; 2; 4; 1] = [1; 2; 4; 1] /\ realised_tt_rank [2; 3; 4] [1; 2; 4; 1] = [1; 2; 4; 1].
+Proof. split; reflexivity. Qed.
